@@ -52,6 +52,9 @@ type c14Prog struct {
 	// other goroutines keep calling its methods
 	CloseAt    int
 	CloseWhich int
+	// ReseedIn > 0: the process-wide entropy source is positioned this many
+	// draws before its periodic re-seeding
+	ReseedIn int
 }
 
 // c14Sock is a socket the program can make fail.
@@ -172,6 +175,9 @@ var errC14Socket = fmt.Errorf("c14: socket failed")
 
 func c14Run(p c14Prog, pc *pairCounter) (calls int64) {
 	rng := rand.New(rand.NewPCG(p.Seed, 14))
+	if p.ReseedIn > 0 {
+		kcp.VerifEntropySetCount(kcp.VerifEntropy(), kcp.VerifReseedInterval-uint64(p.ReseedIn))
+	}
 	key := make([]byte, wire.KeyLen(p.Cipher))
 	for i := range key {
 		key[i] = byte(rng.IntN(256))
@@ -412,6 +418,11 @@ func TestC14Race(t *testing.T) {
 			p.CloseAt = 1 + rng.IntN(p.Goroutines*p.Calls)
 			p.CloseWhich = rng.IntN(4)
 		}
+		// every third program starts a few packets before the shared entropy
+		// source re-seeds itself (once in 2^24 nonces - days of traffic)
+		if rng.IntN(3) == 0 {
+			p.ReseedIn = 1 + rng.IntN(400)
+		}
 		pc.mu.Lock()
 		before := pc.hits
 		pc.mu.Unlock()
@@ -423,7 +434,7 @@ func TestC14Race(t *testing.T) {
 		pc.mu.Unlock()
 		rec.Case(hx.Hash64(p), co > 0, "cipher_"+p.Cipher, fmt.Sprintf("fec_%v", p.FEC[0] > 0),
 			fmt.Sprintf("listener_socket_fails_during_calls_%v", p.FailListenerAt > 0), fmt.Sprintf("client_socket_fails_during_calls_%v", p.FailClientAt > 0),
-			fmt.Sprintf("close_fault_%d", p.CloseFault), fmt.Sprintf("real_udp_sockets_%v", p.RealUDP), fmt.Sprintf("close_while_methods_are_being_called_%v", p.CloseAt > 0))
+			fmt.Sprintf("close_fault_%d", p.CloseFault), fmt.Sprintf("real_udp_sockets_%v", p.RealUDP), fmt.Sprintf("close_while_methods_are_being_called_%v", p.CloseAt > 0), fmt.Sprintf("entropy_reseed_during_the_program_%v", p.ReseedIn > 0))
 		if rec.WantSample() {
 			rec.Sample(p)
 		}
